@@ -24,6 +24,8 @@ func TestReplay(t *testing.T) {
 				return ev.InconclusiveError(e.Error())
 			}
 			_, err = runCase(cd)
+		case "bb_scenario":
+			err = replayBB(raw)
 		case "shard":
 			var sc shardCase
 			if e := json.Unmarshal(raw, &sc); e != nil {
